@@ -3,9 +3,10 @@
 # and prints one summary line per property.   usage: tools/runall.sh [quick|thorough] [workers]
 here=$(cd "$(dirname "$0")/.." && pwd); cd "$here"
 tier=${1:-quick}; workers=${2:-16}
+logdir=$(mktemp -d /tmp/runall.XXXXXX); echo "logs in $logdir"
 for f in harness/props.d/C*.json; do
   p=$(basename "$f" .json)
-  ./bin/vcheck run "$p" --tier "$tier" --workers "$workers" > "/tmp/runall_$p.log" 2>&1; rc=$?
-  echo "$p exit=$rc $(grep -c '^KNOWN-FINDING' /tmp/runall_$p.log) known; $(grep 'tier=' /tmp/runall_$p.log | sed 's/.*done in //')"
-  grep "^VIOLATION\|^INCONCLUSIVE\|^SPURIOUS\|^ENGINE\|^VACUOUS" "/tmp/runall_$p.log" | cut -c1-240
+  ./bin/vcheck run "$p" --tier "$tier" --workers "$workers" > "$logdir/$p.log" 2>&1; rc=$?
+  echo "$p exit=$rc $(grep -c '^KNOWN-FINDING' $logdir/$p.log) known; $(grep 'tier=' $logdir/$p.log | sed 's/.*done in //')"
+  grep "^VIOLATION\|^INCONCLUSIVE\|^SPURIOUS\|^ENGINE\|^VACUOUS" "$logdir/$p.log" | cut -c1-240
 done
